@@ -10,7 +10,7 @@ from .. import blackbox as bb
 from ..report import Result
 
 NEEDS = ("dev", "rel")
-BEHAVIOURS = ["connect-close", "garbage", "plain-http", "tls-no-alpn", "tls-foreign-alpn", "clienthello-then-silence", "clienthello-then-close", "50-stalled"]
+BEHAVIOURS = ["connect-close", "connect-reset", "garbage", "plain-http", "tls-no-alpn", "tls-foreign-alpn", "clienthello-then-silence", "clienthello-then-close", "50-stalled"]
 DOMAIN = "example.org"
 DIGEST = hashlib.sha256(b"c17").digest()
 
@@ -34,6 +34,17 @@ def apply(t, b, keep):
     if b == "connect-close":
         s = t.connect_raw()
         s.close()
+    elif b == "connect-reset":
+        # aborted connections: closed with a RST (SO_LINGER 0) right after the connect, several back to back so that some are
+        # already reset when the server accepts them
+        import struct
+        for _ in range(20):
+            s = t.connect_raw()
+            try:
+                s.setsockopt(socket.SOL_SOCKET, socket.SO_LINGER, struct.pack("ii", 1, 0))
+            except OSError:
+                pass
+            s.close()
     elif b == "garbage":
         s = t.connect_raw()
         s.sendall(bytes(range(256)) * 4)
@@ -132,7 +143,7 @@ def run_history(ctx, hist, listen=None, hold=0):
 def run(ctx):
     res = Result("model_checking")
     depth = 2 if ctx.quick else 4
-    res.rule = ("E5: every ordered selection (with repetition) of 0..%d behaviours from the catalogue {connect+close, garbage bytes, plain HTTP, TLS without ALPN, TLS with foreign "
+    res.rule = ("E5: every ordered selection (with repetition) of 0..%d behaviours from the catalogue {connect+close, 20 connections aborted with a RST, garbage bytes, plain HTTP, TLS without ALPN, TLS with foreign "
                 "ALPN, ClientHello then silence (kept open, closed at the end), ClientHello then FIN, 50 concurrent stalled connections (kept open)} against a fresh release tacd (panic=abort), followed by a valid "
                 "acme-tls/1 handshake checked as in C16; plus slow peers: silent connections held open for 7 s (thorough: 7, 35, 65 s) before the final handshake. A state is the behaviour history; a transition is one connection behaviour.") % depth
     hists = []
@@ -170,7 +181,7 @@ def run(ctx):
                 res.add_sample({"listener": listen, "history": h, "result": "served" if not viols else viols[0][2]})
             for (oracle, ex_, ob) in viols:
                 first = h[0] if h else "none"
-                killer = next((b for b in h if b in ("garbage", "plain-http", "tls-no-alpn", "tls-foreign-alpn", "connect-close", "clienthello-then-close")), first)
+                killer = next((b for b in h if b in ("garbage", "plain-http", "tls-no-alpn", "tls-foreign-alpn", "connect-close", "connect-reset", "clienthello-then-close")), first)
                 res.violation(oracle, "C17|%s|%s|first-failed-connection=%s" % (oracle, listen, killer), ex_, "%s after history %s" % (ob, h), replay={"history": h, "listen": listen})
     res.extra["depth"] = depth
     res.extra["histories"] = len(hists) + len(uh)
@@ -188,6 +199,6 @@ def replay(ctx, rp):
         if r.get("hold"):
             out.append({"oracle": o, "signature": "C17|%s|%s|stalled-connections-held=%ds" % (o, r.get("listen") or "tcp", r["hold"]), "expected": e, "observed": b})
             continue
-        killer = next((x for x in h if x in ("garbage", "plain-http", "tls-no-alpn", "tls-foreign-alpn", "connect-close", "clienthello-then-close")), h[0] if h else "none")
+        killer = next((x for x in h if x in ("garbage", "plain-http", "tls-no-alpn", "tls-foreign-alpn", "connect-close", "connect-reset", "clienthello-then-close")), h[0] if h else "none")
         out.append({"oracle": o, "signature": "C17|%s|%s|first-failed-connection=%s" % (o, r.get("listen") or "tcp", killer), "expected": e, "observed": b})
     return out
